@@ -1,5 +1,5 @@
 (* Props/C05.v — C05: compaction never changes what any key reads, now or after a restart. *)
-From BC Require Import Store.Engine Store.Log Store.Inv Store.Refine Store.Merge Store.Theorems Store.Pinned.
+From BC Require Import Store.Engine Store.Log Store.Inv Store.Refine Store.Merge Store.Sizes Store.Theorems Store.Pinned.
 Open Scope N_scope.
 
 (* 1. A merge pass — for every configuration [c], hence every threshold setting and every subset
